@@ -12,6 +12,7 @@ import (
 
 	"verif/sim/core"
 	"verif/sim/props"
+	"verif/sim/store"
 )
 
 func usage() {
@@ -36,6 +37,8 @@ func main() {
 		usage()
 	}
 	switch os.Args[1] {
+	case "crashchild":
+		store.CrashChildMain(os.Args[2:])
 	case "list":
 		for _, id := range props.IDs() {
 			fmt.Println(id)
